@@ -331,7 +331,9 @@ OutsideD(bd, st) == {e \in Proj(st) : ~IsPrefixSeq(bd, e.p)}
 WithX(o, x) == [res |-> o.res, st |-> o.st, kf |-> o.kf, inv |-> o.inv, skip |-> o.skip, cons |-> <<>>, x |-> x]
 
 \* x is the wrapper's own state (FailFS: plan and counters); outcomes carry cons and the new x
-WOutcomes(w, impl, st, c, x) ==
+\* (a call with v = 9 is made on the PARENT of a view, not through the view: C11's interleavings)
+WOutcomes(w0, impl, st, c, x) ==
+    LET w == IF w0 = "sub" /\ c.v = 9 THEN "none" ELSE w0 IN
     CASE w = "none"   -> {WithX(o, x) : o \in Outcomes(impl, st, c)}
       [] w = "rofs"   -> {WithX(o, x) : o \in RoOutcomes(impl, st, c)}
       [] w = "failro" -> {WithX(o, x) : o \in FailRoOutcomes(impl, st, c)}
